@@ -322,7 +322,98 @@ CLAIMED = {
              "not decided.",
         technique="resolved-callee site enumeration + declared array sizes and front-end constant evaluation of size arguments (GINT) + allocation/limit agreement (ARGS)",
         design="5/C09"),
+    "C10": dict(
+        text="Hit-validation gates on all CFG paths: clientReplyContext::cacheHit serves/revalidates an entry only with no read error, mayStartHitting(), not ENTRY_ABORTED and "
+             "a matching store id, else processMiss(); validToSend()/checkCachable refuse released, aborted and bad-length entries; truncation is sticky (lengthWentBad -> "
+             "ENTRY_BAD_LENGTH + releaseRequest; STORE_OK has only the confirmed writers); replyStatus returns STREAM_COMPLETE only for an unaborted, good-length entry that "
+             "delivered the expected size; swap-in validates URL/key metadata before any disk byte is used; disk/shared-memory/rock read completions hand bytes out only "
+             "after their error and identity checks. Version mixing under concurrent replacement is not decided.",
+        technique="CFG dominance / response / must-pass from switch cases + whole-program who-calls/who-writes",
+        design="5/C10"),
+    "C11": dict(
+        text="HttpStateData::reusableReply cannot reach a caching decision with request or reply CC no-store, reply CC private, or an authenticated request lacking exactly "
+             "the public/must-revalidate/s-maxage exemptions; haveParsedReplyHeaders makes such entries private on all paths and is the only consumer of the decision; "
+             "HttpRequest::maybeCacheable/clientInterpretRequestHeaders/storeCreateEntry give a public key only to cachable requests; HttpHdrCc::parse sets the restrictive "
+             "directive bits on every path of their cases. Default settings (refresh_pattern ignore-*, Surrogate-Control cut).",
+        technique="CFG unreachability under assumed atoms + exact guard matching + must-set from switch cases + whole-program who-calls",
+        design="5/C11"),
+    "C12": dict(
+        text="Staleness gates: FRESH_*/STALE_* reason constants are ordered around the refreshCheckHTTP cut; refreshCheck returns a fresh reason only with the matching "
+             "freshness fact established and never with ENTRY_REVALIDATE_ALWAYS, a stale ENTRY_REVALIDATE_STALE entry or an exceeded request max-age; s-maxage beats max-age "
+             "beats Expires in hdrExpirationTime; cacheHit sends a hit only after refreshCheckHTTP() was false (listed exceptions), otherwise processExpired/processMiss, which "
+             "always forward or answer with an error; no-cache requests bypass the lookup; must-revalidate/s-maxage replies get the revalidation flags. Clock/age arithmetic "
+             "is not decided.",
+        technique="enumerator table ordering + CFG dominance/unreachability/response + definition closure of locals",
+        design="5/C12"),
+    "C13": dict(
+        text="Variant-selection gates: cacheHit consults varyEvaluateMatch on all paths and serves nothing under VARY_OTHER/VARY_CANCEL; VARY_MATCH is returned only after the "
+             "request's mark compared equal to the entry's; the public key digests the request's vary mark; the mark is assembled from the reply's Vary list and the request's "
+             "header values; Vary:* forces ENTRY_REVALIDATE_ALWAYS; MemObject::vary_headers has only the confirmed writers. Equality semantics of the mark are not decided.",
+        technique="CFG dominance / response / per-enumerator switch unreachability + whole-program who-writes + definition closure",
+        design="5/C13"),
+    "C14": dict(
+        text="Validator gates: processConditional sends 304/412 only with the matching precondition facts (IMS not modified and no If-None-Match; matching If-None-Match; "
+             "failed If-Match) and only for a stored 200; the full response is unreachable after a failed If-Match, matching If-None-Match or unsatisfied IMS; 304 only for "
+             "GET/HEAD (per-enumerator), 412 otherwise; strong/weak comparison selection in hasOneOfEtags/etagIsStrongEqual; modifiedSince comparison direction; a 304 from the "
+             "origin updates the old entry before it is served. Entity-tag string comparison and date parsing are not decided.",
+        technique="CFG dominance / unreachability / response + per-enumerator switch folding + whole-program who-calls",
+        design="5/C14"),
+    "C16": dict(
+        text="Publish-after-write gates of the rock store: the anchor/slice links and the writing->reading switch happen only in handleWriteCompletionSuccess, reached only for "
+             "an expected, error-free write completion (else the entry is freed); the slot header is filled before it is copied and written; the rebuild (C57) and swap-in "
+             "metadata validation gates reject incomplete chains; ufs logs SWAP_LOG_ADD only after an error-free complete swap-out and rebuild accepts only sane, "
+             "size-consistent, public-key records. Crash points are not enumerated.",
+        technique="whole-program who-calls/who-writes + CFG dominance / response / ORDER (must-pass)",
+        design="5/C16"),
+    "C57": dict(
+        text="Rock::Rebuild gates: an entry is validated/closed only when its chain ended and the mapped payload sizes add up to the recorded entry size; each slot is marked "
+             "and used once (no loops, no sharing); slots are loaded only from sane non-empty headers within bounds; a second inode, failed import or size disagreement frees "
+             "the entry and nothing is mapped afterwards. DbCellHeader::sane() body and value flow of sizes are not decided.",
+        technique="CFG dominance / response / unreachability-after-event + who-calls within the unit",
+        design="5/C57"),
+    "C60": dict(
+        text="ICAP bypass/echo gates of Adaptation::Icap::ModXact: failure bypass only while canStartBypass and not retriable; canStartBypass has only the confirmed writers and is "
+             "cleared before any adapted byte or virgin-body consumption; 204 responses always echo through prepEchoing, which copies the packed virgin header; sendingVirgin "
+             "is set only by the echo preparers. Message integrity across ICAP server behaviours is not decided.",
+        technique="CFG dominance / ORDER / response + whole-program who-calls/who-writes",
+        design="5/C60"),
+    "C59": dict(
+        text="EventScheduler list discipline: schedule() links the new node where the scan ended or broke on the strict `>` comparison (ties keep submission order) with "
+             "next set before the link; checkEvents fires only the head, only when timeRemaining() == 0, and unlinks it; cancel deletes only a node matching func/arg after "
+             "unlinking exactly it; ev_entry::next and EventScheduler::tasks have only the confirmed writers. Histories are not decided.",
+        technique="CFG dominance with comparison-operator exactness + ORDER + whole-program who-writes",
+        design="5/C59"),
+    "C47": dict(
+        text="Reply-to-request binding in helper.cc: popRequest returns only the request indexed under the given ID (or the queue front without concurrency); helperHandleRead "
+             "binds a request only when not ignoring, none is bound, and the channel ID is complete (needsMore false), with the ID taken from strtol(msg); an unknown ID makes "
+             "the reply ignored to its end; helperReturnBuffer calls back only the bound request, only for a complete reply and valid callback data, then clears the binding; "
+             "the request queue changes only in the confirmed functions. Stateful helpers and reply parsing are not decided.",
+        technique="CFG dominance / response + whole-program who-writes on the queue members",
+        design="5/C47"),
+    "C51": dict(
+        text="ClpMap capacity/LRU gates on the template: add() inserts only past the ttl/limit/size checks, after del(key) and trim(wantSpace), at the front, with memCounted and "
+             "memUsed_ updated by the same amount; erase subtracts exactly memCounted and removes from both containers; trim removes only the least-recently-used end and "
+             "only while space is short; find moves hits to the front and erases expired ones; memUsed_/memLimit_ have only the confirmed writers. Reference-model agreement "
+             "over histories is not decided.",
+        technique="CFG dominance / ORDER / response on the instantiated template + who-writes over all members",
+        design="5/C51"),
 }
 
+
 NOT_APPLICABLE = {
+    "C17": "Persistence over store histories (clean shutdown, restart, hit with identical bytes): the mechanism is 'the index writer records every completed entry and the "
+           "rebuild reads it back'; there is no guard whose absence is visible in code shape, the quantifier ranges over run-time store contents and eviction decisions, and "
+           "any static rule would be a frozen description of today's writer. The structural neighbours (rebuild validation, publish-after-write) are claimed under C16/C57.",
+    "C18": "'At most one origin request among concurrent collapsed clients' is a count over schedules and worker interleavings; static analysis in reach cannot bound it. The "
+           "only shape-visible clause (a truncated body is never presented as complete) is already decided under C01/C10.",
+    "C19": "Cross-process schedules over shared memory; byte identity across workers is a run-time relation. The shape-visible core (the lock/slice protocol of the shared "
+           "index) is claimed under C54/C55/C53; the remainder needs execution or model checking, which is another technique family.",
+    "C41": "Set-equivalence of the domain comparator/merge algebra over all insertion orders is value reasoning about string suffix relations (matchDomainName); "
+           "a decision-table clause of IsSubset is being built, until then nothing is claimed.",
+    "C42": "Union-of-sets equivalence of the IP comparator/merge algebra (Compare/IsSubset/MakeCombinedValue over masked addresses, all insertion orders): value reasoning about "
+           "128-bit address arithmetic, not code shape; an AST rule would freeze today's implementation.",
+    "C43": "Union-of-ranges equivalence of ACLIntRange::parse's merge algebra over all insertion orders: value reasoning over integer intervals handled by a solver or testing, "
+           "not by a structural rule.",
+    "C49": "Conformance of mem_hdr with a byte-map model over write/free/read histories; stmem.cc has no gate other than value-dependent assertions.",
+    "C50": "Set algebra over 256-entry tables and maximal-munch of Tokenizer are per-value semantics; the constants built with them are folded and checked under C22.",
 }
